@@ -36,16 +36,20 @@ def harnesses(tier, seed):
         hs.append(h("sum", "F", "slice", 4, 2, 1))
         hs.append(h("fold", "M", "slice", 4, 2, 2))
     else:
+        heavy_ty = ("FL", "FLF")
         for ty in ("E", "M", "F", "MF", "FM", "FMF", "FL", "FLF"):
             src = "vec" if ty in ("E", "F") else "slice"
             for term in ("reduce_xor", "reduce_add", "reduce_min", "reduce_max", "fold", "sum", "min", "max",
                          "min_by_key", "max_by_key", "min_by", "max_by"):
-                cfgs = ((4, 2, 1), (4, 2, 2), (5, 3, 1), (5, 3, 2), (4, 2, 3)) if term in ("reduce_xor", "reduce_add") \
-                    else ((4, 2, 1), (4, 2, 2))
+                cfgs = [(4, 2, 1), (4, 2, 2)] if ty not in heavy_ty else [(4, 2, 1), (3, 2, 2)]
+                if term in ("reduce_xor", "reduce_add") and ty not in heavy_ty:
+                    cfgs += [(5, 3, 1), (5, 2, 2), (5, 2, 1)]
                 for (n, t, c) in cfgs:
                     hs.append(h(term, ty, src, n, t, c))
-            hs.append(h("reduce_xor", ty, src, 4, 2, "auto", "ChunkSize::Auto"))
-            hs.append(h("reduce_xor", ty, src, 4, 2, "min2", "ChunkSize::Min(NonZeroUsize::new(2).unwrap())"))
+            if ty not in heavy_ty:
+                hs.append(h("reduce_xor", ty, src, 4, 2, "min2", "ChunkSize::Min(NonZeroUsize::new(2).unwrap())"))
+            if ty not in ("E", "F"):
+                hs.append(h("reduce_xor", ty, "sched", 4 if ty not in heavy_ty else 3, 2, 1))
         for ty in ("E", "F"):
             for c in (1, 2):
                 hs.append(h("reduce_ref_min", ty, "slice", 4, 2, c))
